@@ -386,8 +386,10 @@ where
         }
 
         if COMPRESSED
-            && (symbol.as_() >= self.codes_encode.as_ref().unwrap().len()
-                || self.codes_encode.as_ref().unwrap()[symbol.as_() as usize].len == 0)
+            && symbol.to_usize().map_or(true, |s| {
+                s >= self.codes_encode.as_ref().unwrap().len()
+                    || self.codes_encode.as_ref().unwrap()[s].len == 0
+            })
         {
             return None;
         }
@@ -446,8 +448,10 @@ where
         }
 
         if COMPRESSED
-            && (symbol.as_() >= self.codes_encode.as_ref().unwrap().len()
-                || self.codes_encode.as_ref().unwrap()[symbol.as_() as usize].len == 0)
+            && symbol.to_usize().map_or(true, |s| {
+                s >= self.codes_encode.as_ref().unwrap().len()
+                    || self.codes_encode.as_ref().unwrap()[s].len == 0
+            })
         {
             return None;
         }
